@@ -24,7 +24,7 @@ LEAN = os.path.join(VERIF, "lean")
 HARNESS = os.path.join(VERIF, "harness")
 BUILD = os.path.join(VERIF, ".build")
 WORK = os.path.join(BUILD, "work")
-REPO = "/repo"
+REPO = os.environ.get("VERIF_REPO", "/repo")
 HBIN = os.path.join(BUILD, "harness-target", "debug", "mbharness")
 DBIN = os.path.join(LEAN, ".lake", "build", "bin", "mbdriver")
 ALLOWED_AXIOMS = {"propext", "Classical.choice", "Quot.sound"}
